@@ -52,7 +52,7 @@ def build(case):
         "seed": case["seed"],
         "server": {"block_size": B, "idle_timeout": None, "socket_timeout": None, "wait_future_timeout": None, "users": corpus.USERS},
         "net": net,
-        "fs": {"delay": case.get("fs_delay", [0.0001, 0.002]), "tree": tree, "short_reads": bool(case["seed"] & 1)},
+        "fs": {"delay": case.get("fs_delay", [0.0001, 0.002]), "tree": tree, "short_reads": bool(case["seed"] & 1), "close_returns": True if (case["seed"] + len(case["script"])) % 2 else None},
         "sessions": sessions,
         "faults": faults,
         "settle": 1000.0,
